@@ -1061,10 +1061,11 @@ class SE3_AdjTXa(torch.autograd.Function):
     @staticmethod
     def backward(ctx, grad_output):
         X, a = ctx.saved_tensors
-        a_grad = SE3_AdjXa.apply(X, grad_output)
-        X_grad = -a.unsqueeze(-2) @ se3_adj(a_grad)
+        # out = Adj(X^-1) a; Adj(X)^T = Adj(X^-1) holds only for (scaled) rotations
+        a_grad = grad_output.unsqueeze(-2) @ SE3_Adj(SE3_Inv.apply(X))
+        X_grad = a_grad @ se3_adj(a)
         zero = torch.zeros(X.shape[:-1]+(1,), device=X.device, dtype=X.dtype)
-        return torch.cat((X_grad.squeeze(-2), zero), dim = -1), a_grad
+        return torch.cat((X_grad.squeeze(-2), zero), dim = -1), a_grad.squeeze(-2)
 
 
 class RxSO3_AdjTXa(torch.autograd.Function):
@@ -1107,10 +1108,11 @@ class Sim3_AdjTXa(torch.autograd.Function):
     @staticmethod
     def backward(ctx, grad_output):
         X, a = ctx.saved_tensors
-        a_grad = Sim3_AdjXa.apply(X, grad_output)
-        X_grad = -a.unsqueeze(-2) @ sim3_adj(a_grad)
+        # out = Adj(X^-1) a; Adj(X)^T = Adj(X^-1) holds only for (scaled) rotations
+        a_grad = grad_output.unsqueeze(-2) @ Sim3_Adj(Sim3_Inv.apply(X))
+        X_grad = a_grad @ sim3_adj(a)
         zero = torch.zeros(X.shape[:-1]+(1,), device=X.device, dtype=X.dtype)
-        return torch.cat((X_grad.squeeze(-2), zero), dim = -1), a_grad
+        return torch.cat((X_grad.squeeze(-2), zero), dim = -1), a_grad.squeeze(-2)
 
 
 def broadcast_inputs(x, y):
